@@ -15,6 +15,10 @@ FUNCS = {
                   ('no_modulation', 'self._config.modulate_target_ack_time is None', []),
                   ('some_octets', 'length(data) > 0', [])],
         modifies=['*'],
+        # C14: any received octets count as traffic -- the idle timer is restarted before the buffer is looked at,
+        # whether or not the octets complete a message
+        hints=[dict(label='idle_timer_restarted_by_received_octets', before='while self.__rx_buf:',
+                    **{'assert': 'ghost.idle_resets == old(ghost.idle_resets) + 1'})],
         loops={0: dict(
             invariant=INV + [
                 ('stream_conserved', '%s == old(%s) + data' % (STREAM, STREAM)),
